@@ -26,6 +26,11 @@ func init() {
 		e := getC07Env(c.Seed, envIdx, c08Origins)
 		ik, _ := ecdsa.CreateKey(elliptic.P384(), unhx(a[1]))
 		e.issuer.AddOriginWithIndexKey(origin, ik)
+		if len(a) > 9 {
+			// a second origin with its own index key is registered afterwards (a[8] = name, a[9] = index key)
+			ik2, _ := ecdsa.CreateKey(elliptic.P384(), unhx(a[9]))
+			e.issuer.AddOriginWithIndexKey(string(unhx(a[8])), ik2)
+		}
 		reseedRand(c.Seed, "c08.id:"+a[3]+a[4])
 		client := type3.NewRateLimitedClientFromSecret(secret)
 		st, err := client.CreateTokenRequest(challenge, nonce, blind, e.issuer.TokenKeyID(), e.issuer.TokenKey(), origin, e.issuer.NameKey())
@@ -149,6 +154,22 @@ func runC08(c *Ctx) {
 			io.ReadFull(hkdf.New(sha512.New384, elliptic.MarshalCompressed(elliptic.P384(), bp.X, bp.Y), cl.pubEnc, []byte("IssuerOriginAlias")), ref)
 			c.Direct(o == "ok "+hxv(ref) && o != first, "ID for a second index key, requested with the same request blind, is not the ID of that index key",
 				map[string]any{"client": hx(cl.pubEnc), "indexKey": hx(ik2), "blind": hx(blind0), "impl": o, "first": first})
+		}
+		// two origins whose names a normalising map would confuse, each with its own index key, both registered before the
+		// request for the first: the ID is that of the first origin's key
+		{
+			pairs := [][2]string{{"shop.example", "Shop.example"}, {"Shop.Example", "shop.example"}, {"shop.example", "shop.example."}, {"shop.example.", "shop.example"},
+				{"shop.example", " shop.example"}, {"shop.example", "shop.example "}, {"xn--shop", "XN--SHOP"}}
+			pr := pairs[p%len(pairs)]
+			ikA, ikB := r.Bytes(48), r.Bytes(48)
+			o := c.Run("c08.id", hx(cl.pubEnc), hx(ikA), hx(cl.secret), hx(r.Bytes(48)), hx(r.Bytes(32)), "-", hx([]byte(pr[0])), fmt.Sprint(p%2), hx([]byte(pr[1])), hx(ikB))
+			c.Count("id:near-variant-origins")
+			ikRef, _ := ecdsa.CreateKey(elliptic.P384(), ikA)
+			bp, _ := ecdsa.BlindPublicKeyWithContext(elliptic.P384(), &cl.sk.PublicKey, ikRef, t3ctx("IssuerBlind"))
+			ref := make([]byte, 48)
+			io.ReadFull(hkdf.New(sha512.New384, elliptic.MarshalCompressed(elliptic.P384(), bp.X, bp.Y), cl.pubEnc, []byte("IssuerOriginAlias")), ref)
+			c.Direct(o == "ok "+hxv(ref), "with a second, similarly named origin registered, the ID is not derived from the requested origin's own index key",
+				map[string]any{"origin": pr[0], "other": pr[1], "impl": o})
 		}
 		// same index key, another client; same client, another index key -> different IDs (checked through `seen`)
 		if p%3 == 0 {
